@@ -408,5 +408,48 @@ theorem modelObsWire_eq (cfg : Config) (req : Req) (methods ms : List Str) (hO :
     Spec.AllowObs.mk.injEq, true_and, and_true]
   exact ⟨decode_join ms htok, decode_join ms htok⟩
 
+/-! ### OPTIONS probes that carry Access-Control-Request-Method -/
+
+/-- the filter on a preflight: exactly its answer to a bare OPTIONS request, whatever method the
+    preflight names -/
+theorem filtered_preflight (cfg : Config) (req : Req) (ms : List Str) (a : Str)
+    (hc : Cors.computeAllowedMethods E cfg.services req.path = some ms) :
+    Options.optionsOut E cfg (Spec.optReqPf req a) = some
+      ⟨[("Allow".toList, Str.join Cors.sComma ms), (Cors.hAllowOrigin, []), (Cors.hAllowHeaders, []),
+        (Cors.hAllowMethods, Str.join Cors.sComma ms)], false⟩ := by
+  unfold Options.optionsOut Spec.optReqPf
+  simp only [bne_self_eq_false, Bool.false_eq_true, if_false, hc]
+
+theorem modelPreflight_eq (cfg : Config) (req : Req) (ms : List Str) (a : Str)
+    (hc : Cors.computeAllowedMethods E cfg.services req.path = some ms) :
+    Spec.modelPreflight E cfg req a = { acrm := a, allow := ms, acam := ms, handlerRan := false } := by
+  unfold Spec.modelPreflight
+  simp only [hc, Option.getD_some, filtered_preflight E cfg req ms a hc, Bool.false_and]
+
+/-- the preflight clause follows from `c17Holds` when the probe's lists are the ones of the bare
+    OPTIONS probe and no route function ran -/
+theorem pfHolds_of_c17Holds (o : Spec.AllowObs) (h : Spec.c17Holds o = true) (a : Str) :
+    Spec.pfHolds o { acrm := a, allow := o.optAllow, acam := o.optACAM, handlerRan := false } = true := by
+  unfold Spec.c17Holds at h
+  unfold Spec.pfHolds
+  simp only [Bool.and_eq_true, Bool.not_false, and_true] at h ⊢
+  exact ⟨⟨h.1.1.1.1.2, h.1.1.1.2⟩, h.1.1.2⟩
+
+/-- **`c17HoldsAll` of the model's observation and the model's preflight answers**, for every list of
+    requested-method values -/
+theorem c17HoldsAll_model (cfg : Config) (req : Req) (methods ms : List Str)
+    (hO : Cors.sOPTIONS ∈ methods)
+    (hc : Cors.computeAllowedMethods E cfg.services req.path = some ms)
+    (h : Spec.c17Holds (Spec.modelObs E cfg req methods) = true) (acrms : List Str) :
+    Spec.c17HoldsAll (Spec.modelObs E cfg req methods) (acrms.map (Spec.modelPreflight E cfg req)) = true := by
+  unfold Spec.c17HoldsAll
+  rw [h, Bool.true_and, List.all_eq_true]
+  intro p hp
+  obtain ⟨a, _, rfl⟩ := List.mem_map.mp hp
+  rw [modelPreflight_eq E cfg req ms a hc]
+  have := pfHolds_of_c17Holds (Spec.modelObs E cfg req methods) h a
+  rw [modelObs_eq E cfg req methods ms hO hc] at this ⊢
+  exact this
+
 end Allow
 end Restful
